@@ -62,6 +62,13 @@ add("C34", "apimc", "model_checking", "exhaustive input-grid enumeration of Raft
     "Full product of boundary values {0,1,2,typical,2^32,u64::MAX-1,u64::MAX} for the four lease/election fields (2401 tuples) crossed one-at-a-time and pairwise with the remaining seven numeric fields; for every configuration the real validate() is called and, when it accepts, every postcondition of the statement is evaluated in exact (u128) arithmetic.",
     "Validators are independent per sub-struct except the lease-vs-election cross check, which gets the full product.", "DESIGN.md section 4 C34")
 
+add("C15", "smmc", "fault_enumeration", "crash-image enumeration (every guarded crash point, torn WAL appends, operation boundaries; nested crash-restart-crash) on the real File and RocksDB state machines",
+    "Scenarios = segments of {apply a chunk of 1..2 commands, checkpoint/flush} over put / put-empty / delete / CAS-from-absent / CAS-from-value / TTL-put on the real engines; a directory image is taken at every guarded crash point inside the File engine (apply: after WAL, after memory, after last_applied; checkpoint: data/metadata temp write and rename, WAL clear; WAL replay) and at every operation boundary (both engines), plus WAL appends torn at 1/half/len-1 bytes. Every distinct image is reopened: the data must equal the reference state at the reported applied index, and re-applying the committed suffix (as the commit handler does) must reproduce the reference state and success flags. Images of the smaller scenarios are continued with further segments (restart, more operations, crash again).",
+    "Process-crash semantics (bytes written so far survive); RocksDB images only at operation boundaries (its WAL/manifest are trusted); bounded command alphabet and scenario lengths listed in the evidence.", "DESIGN.md section 4 C15")
+add("C23", "smmc", "model_checking", "exhaustive operation-sequence enumeration on the real File and RocksDB state machines with a real TtlLease under a harness-owned wall clock",
+    "Every sequence (first op a write; depth 4/3 quick, 6/5 thorough for File/RocksDB) over {put with TTL, put, delete, CAS on the current value, clock advance, expiry cleanup, graceful restart, process crash + reopen, snapshot generate + install on a fresh instance}; CLOCK_REALTIME is frozen and moved only by the harness (clock_gettime defined in the executable, self-tested). After every operation get(k) is compared with the reference (no comparison while a TTL has elapsed but no cleanup has run); every sequence ends with 'advance past every TTL + cleanup'. Plus n keys under TTL (n in 2,11,12,24) of which exactly one is due, for every choice of that key. Two crash-related defects (TTL table only persisted by a graceful stop) are recorded as known findings with guards on their specific cause.",
+    "One key; TTL state observed through get() only; restart mirrors EmbeddedEngine::stop ordering.", "DESIGN.md section 4 C23")
+
 NOT_BUILT = "check not built yet (work in progress, DESIGN.md section 10 build order); no verdict is claimed for this property"
 
 manifest = {
